@@ -1122,8 +1122,12 @@ def x_sweep(tier, rng, trace=False, n=None, variants=None, xcases=None, inputs_f
     def inputs_of(c):
         if inputs_fn is not None:
             return inputs_fn(c)
-        extra = expr_letter_inputs(c["xs"], rng, 12 if tier == "quick" else 40) if c.get("kind") == "expr" else []
-        return gen.x_inputs(c["xs"], rng, max_len=3 if tier == "quick" else 4, n_sent=10 if tier == "quick" else 25,
+        # operator expressions for every grammar that has rules of the shape `E : E op E` (random sampling of such an
+        # ambiguous grammar hardly ever yields a sentence with an operator)
+        extra = expr_letter_inputs(c["xs"], rng, 12 if tier == "quick" else 40) if c.get("kind") in ("expr", "hand") else []
+        # the hand-written grammars exist for particular rules and literals: many more sentences, so that every rule is reduced
+        n_sent = (40 if c.get("kind") == "hand" else 10) if tier == "quick" else (80 if c.get("kind") == "hand" else 25)
+        return gen.x_inputs(c["xs"], rng, max_len=3 if tier == "quick" else 4, n_sent=n_sent,
                             cap=200 if tier == "quick" else 700) + extra
     res = xrun.run_x(xc, inputs_of, trace=trace, variants=variants or xrun.VARIANTS)
     # the same grammars through the core dump (for the Earley oracle and the conflict-free test)
@@ -2945,6 +2949,8 @@ def check_C18(tier):
     # more than 256 rules (rule numbers that do not fit a byte) and more than 256 symbols
     cases.append({"id": "many:rules", "kind": "hand", "src": "%token SEP " + " ".join("T%03d" % i for i in range(300)) + "\n%start prog\n%%\nprog : | prog item SEP ;\nitem : " +
                   " | ".join("T%03d" % i for i in range(300)) + " ;\n%%\n"})
+    # literals that are special in Printf formats and in DOT labels
+    cases.append({"id": "percent:literal", "kind": "hand", "src": "%token N\n%left '+' '<'\n%left '%' '>'\n%start E\n%%\nE : E '+' E | E '%' E | E '<' E | E '>' E | '%' E | N ;\n%%\n"})
     cases.append({"id": "unicode:names", "kind": "hand", "src": "%token ЧИСЛО\n%left '×'\n%left '→'\n%start список\n%%\nсписок : список '→' élément | élément ;\nélément : élément '×' ЧИСЛО | ЧИСЛО ;\n%%\n"})
     safe = []
     for c in cases:
